@@ -7,7 +7,8 @@ Open Scope Z_scope.
 Inductive op11 :=
   | SChoose (A : absfmt) (mpfixed_int : bool)      (* choose_storage_scalar(bound), A = _to_abstract(bound) *)
   | SFits (a b : cppscalar)                         (* scalar_fits_in *)
-  | SBoundFits (A : absfmt) (t : cppscalar).        (* bound_fits_in_scalar *)
+  | SBoundFits (A : absfmt) (t : cppscalar)         (* bound_fits_in_scalar *)
+  | SCounter (start stop step : Z).                 (* emitter._range_counter_scalar, step <> 0 *)
 
 Inductive out11 := RTy (t : option cppscalar) | RB11 (b : bool).
 
@@ -25,6 +26,8 @@ Definition run11 (o : op11) : out11 :=
       RTy (match choose_storage_scalar A b with SLadder t => Some t | SFallbackS64 => Some CS64 | SNone => None end)
   | SFits a b => RB11 (scalar_fits_in a b)
   | SBoundFits A t => RB11 (bound_fits_in_scalar A t)
+  | SCounter a b c =>
+      RTy (match range_counter_scalar a b c with SLadder t => Some t | SFallbackS64 => Some CS64 | SNone => None end)
   end.
 
 (* af_le is the C14 model; a repaired __le__ (fixes/C14-le-unbounded-exp.diff) answers the
